@@ -2,6 +2,7 @@
 Line-protocol driver + implementation-output checker for the C19 model (`fee`).
 -/
 import PvModel.FeesSpec
+-- registry: fee PvModel.Fees.driver
 
 namespace PvModel.Fees
 open PvModel
